@@ -26,3 +26,17 @@ Proof.
   destruct (one_packet_spec _ _ _ _ _ _ _ _ H) as [_ [_ [_ Hcase]]].
   destruct Hcase as [[b [ser' [_ [Hr _]]]] | [[w [Hr _]] | [Hr _]]]; try discriminate Hr. injection Hr as ->. exists w. reflexivity.
 Qed.
+
+(* rejecting a request - of any kind - never connects the session, never changes the application name and never touches a stream *)
+Lemma reject_keeps_connection s id code d clock s' r :
+  server_reject s id code d clock = (s', r) ->
+  sv_app s' = sv_app s /\ sv_connected s' = sv_connected s /\ sv_streams s' = sv_streams s /\ sv_next_stream s' = sv_next_stream s /\
+  sv_next_req s' = sv_next_req s.
+Proof.
+  unfold server_reject. destruct (lookup id (sv_reqs s)) as [req|] eqn:El.
+  - cbv zeta. destruct (match req with RConnection _ tr => (tr, 0) | RPublish _ _ sid => (0, sid) | RPlay _ sid => (0, sid) end) as [tr sid].
+    intros H. destruct (one_packet_spec _ _ _ _ _ _ _ _ H) as [[Ha [_ [Hn [Hc [Hst [Hns _]]]]]] _].
+    cbn [sv_app sv_connected sv_streams sv_next_stream sv_next_req upd_reqs] in Ha, Hc, Hst, Hns, Hn.
+    repeat split; assumption.
+  - intros H. injection H as <- _. repeat split; reflexivity.
+Qed.
